@@ -335,11 +335,12 @@ func (c *Ctx) handlerFrameRule(rule string) {
 		r.Add(rule, "protected:"+c.FuncKey(fn), c.InstrPos(hc.Site), c.FuncKey(fn), "handler code is invoked under a deferred call of the configured recovery hook, one handler per frame", ok, why)
 	}
 	r.Floor(rule, "handler invocation sites (interface / function value)", n, 2)
-	// default hook: value stored to Config.Recover in NewConfig calls recover() directly
-	nc := c.Func(c.Client, "NewConfig")
+	// every hook the library itself installs: each store to Config.Recover anywhere in package client stores a
+	// function that calls recover() directly in its own body (a wrapper closure around a hook puts the hook's
+	// recover() one frame too deep, where it returns nil), or a value the caller supplied
 	found := false
-	if nc != nil {
-		funcInstrs(nc, func(in ssa.Instruction) {
+	for _, fn := range c.clientFuncs() {
+		funcInstrs(fn, func(in ssa.Instruction) {
 			s, ok := in.(*ssa.Store)
 			if !ok {
 				return
@@ -347,23 +348,44 @@ func (c *Ctx) handlerFrameRule(rule string) {
 			if fv, _ := fieldOf(s.Addr); fv != c.A.CfgRecover {
 				return
 			}
-			hook := c.funcValue(s.Val)
-			ok2 := false
-			why := "default hook not resolved"
-			if hook != nil {
-				why = "default hook " + c.FuncKey(hook) + " does not call recover() in its own body"
+			callerSupplied := true
+			for _, o := range c.Origins(s.Val) {
+				if _, isP := o.(*ssa.Parameter); !isP {
+					callerSupplied = false
+				}
+			}
+			if callerSupplied {
+				return
+			}
+			found = true
+			hooks := c.dynamicTargets(s.Val, fn, 0)
+			if h := c.funcValue(s.Val); h != nil && len(hooks) == 0 {
+				hooks = []*ssa.Function{h}
+			}
+			ok2 := len(hooks) > 0
+			why := "stored hook not resolved to library functions"
+			for _, hook := range hooks {
+				direct := false
 				funcInstrs(hook, func(x ssa.Instruction) {
 					if cc := callOf(x); cc != nil {
 						if b, ok := cc.Value.(*ssa.Builtin); ok && b.Name() == "recover" {
 							if _, isCall := x.(*ssa.Call); isCall {
-								ok2, why = true, "default hook "+c.FuncKey(hook)+" calls recover() directly"
+								direct = true
 							}
 						}
 					}
 				})
+				if direct {
+					why = "hook " + c.FuncKey(hook) + " calls recover() directly"
+				} else {
+					ok2, why = false, "hook "+c.FuncKey(hook)+" does not call recover() in its own body (a recover() further down the call chain returns nil and the panic continues)"
+				}
 			}
-			found = true
-			r.Add(rule, "default-hook", c.InstrPos(s), c.FuncKey(nc), "the default recovery hook recovers", ok2, why)
+			key := "default-hook"
+			if fn.Name() != "NewConfig" {
+				key = "installed-hook:" + c.FuncKey(fn)
+			}
+			r.Add(rule, key, c.InstrPos(s), c.FuncKey(fn), "a recovery hook installed by the library recovers", ok2, why)
 		})
 	}
 	r.Floor(rule, "store of the default recovery hook in NewConfig", map[bool]int{true: 1}[found], 1)
